@@ -8,7 +8,7 @@ Extraction Language OCaml.
 Extraction "model.ml"
   Names.name_change Names.hostname_change Names.rename_ok Names.rename_keeps_rest Names.first_label_encodable
   Registry.compare_rr Registry.tb_cmp Registry.well_typed Registry.rrdata_match
-  RegistryDaemon.iterate RegistryDaemon.d_init RegistryDaemon.due_work
+  RegistryDaemon.iterate RegistryDaemon.d_init RegistryDaemon.d_init_os RegistryDaemon.due_work
   RegistrySpec.chk_C07 RegistrySpec.chk_C08 RegistrySpec.chk_C09 RegistrySpec.c08_final RegistrySpec.ann_names
   RegistrySpec.model_obs RegistrySpec.g7_init RegistrySpec.same_name_ci
   WireOut.name_labels WireOut.escape_label Res.bind Res.is_ok
